@@ -98,6 +98,21 @@ func c06globals(st *c06stats) ugo.Map {
 			return nil, errors.New("plain go error")
 		}},
 	}
+	// a callback that aborts the VM it runs on and then panics / fails (a watchdog firing while a slow callback is about
+	// to blow up): the run ends with an error or a value, never with a panic, and the VM stays usable
+	g["ABORTPANIC"] = &ugo.Function{Name: "ABORTPANIC", ValueEx: func(c ugo.Call) (ugo.Object, error) {
+		st.callbackPanics++
+		if vm := c.VM(); vm != nil {
+			vm.Abort()
+		}
+		panic("panic after Abort")
+	}}
+	g["ABORTERR"] = &ugo.Function{Name: "ABORTERR", ValueEx: func(c ugo.Call) (ugo.Object, error) {
+		if vm := c.VM(); vm != nil {
+			vm.Abort()
+		}
+		return nil, errors.New("error after Abort")
+	}}
 	g["INVOKE"] = &ugo.Function{Name: "INVOKE", ValueEx: func(c ugo.Call) (ugo.Object, error) {
 		if c.Len() < 1 {
 			return ugo.Undefined, nil
@@ -115,7 +130,7 @@ var c06faults = []string{
 	"arr[99]", "arr[-1]", "arr[9223372036854775807]", "arr[1:0]", "arr[0:99]", "\"abc\"[5:]", "arr[-1:]", "bytes(1, 2)[0:9]", "{a: 1}.a.b.c", "1[0]",
 	"undefined()", "(5)(1)", "undefined.a.b()", "func(a) { return a }(1, 2, 3)", "func(a, ...b) { return a }()", "func(a) { return a }(...5)",
 	"func() { for x in 5 { } }()", "int(\"zz\")", "len()", "error()", "\"s\" - 1", "undefined + 1", "[1] < [2]",
-	"PANICSTR()", "PANICERR()", "PANICRT()", "PANICCUSTOM()", "PANICNIL()", "ERRFN()",
+	"PANICSTR()", "PANICERR()", "PANICRT()", "PANICCUSTOM()", "PANICNIL()", "ERRFN()", "ABORTPANIC()", "ABORTERR()",
 	"OBJ + 1", "1 + OBJ", "OBJ.x", "OBJ[0]", "OBJ()", "OBJ.meth(1)", "func() { for x in OBJ { } }()", "string(OBJ)", "OBJ == 1", "!OBJ", "func() { OBJ.x = 1 }()",
 	"func() { var r; r = func() { return r() + 1 }; return r() }()",
 	"func() { var r; r = func(a, b, c, d, e, f, g, h) { x1 := a; x2 := b; x3 := c; return r(x1, x2, x3, d, e, f, g, h) + 1 }; return r(1, 2, 3, 4, 5, 6, 7, 8) }()",
@@ -142,19 +157,22 @@ type c06ctx struct {
 }
 
 var c06contexts = []c06ctx{
-	{"plain", "global (zero, neg, arr, G, OBJ, PANICSTR, PANICERR, PANICRT, PANICCUSTOM, PANICNIL, ERRFN, INVOKE)\nthrowing := func() { throw error(\"thrown\") }\nreturn %s\n"},
-	{"try", "global (zero, neg, arr, G, OBJ, PANICSTR, PANICERR, PANICRT, PANICCUSTOM, PANICNIL, ERRFN, INVOKE)\nthrowing := func() { throw error(\"thrown\") }\ntry {\n  return %s\n} catch e {\n  return \"caught:\" + e.Name\n}\n"},
-	{"catch", "global (zero, neg, arr, G, OBJ, PANICSTR, PANICERR, PANICRT, PANICCUSTOM, PANICNIL, ERRFN, INVOKE)\nthrowing := func() { throw error(\"thrown\") }\ntry {\n  throw \"x\"\n} catch e {\n  return %s\n}\n"},
-	{"finally", "global (zero, neg, arr, G, OBJ, PANICSTR, PANICERR, PANICRT, PANICCUSTOM, PANICNIL, ERRFN, INVOKE)\nthrowing := func() { throw error(\"thrown\") }\ntry {\n  return 1\n} finally {\n  %s\n}\n"},
-	{"callee", "global (zero, neg, arr, G, OBJ, PANICSTR, PANICERR, PANICRT, PANICCUSTOM, PANICNIL, ERRFN, INVOKE)\nthrowing := func() { throw error(\"thrown\") }\nf := func() {\n  return %s\n}\ng := func() {\n  try {\n    return f()\n  } finally {\n    G = 4\n  }\n}\nreturn g()\n"},
-	{"looptry", "global (zero, neg, arr, G, OBJ, PANICSTR, PANICERR, PANICRT, PANICCUSTOM, PANICNIL, ERRFN, INVOKE)\nthrowing := func() { throw error(\"thrown\") }\nn := 0\nfor i := 0; i < 3; i++ {\n  try {\n    %s\n  } catch {\n    n++\n  }\n}\nreturn n\n"},
-	{"invoker", "global (zero, neg, arr, G, OBJ, PANICSTR, PANICERR, PANICRT, PANICCUSTOM, PANICNIL, ERRFN, INVOKE)\nthrowing := func() { throw error(\"thrown\") }\nreturn INVOKE(func() {\n  return %s\n})\n"},
-	{"stringsmap", "global (zero, neg, arr, G, OBJ, PANICSTR, PANICERR, PANICRT, PANICCUSTOM, PANICNIL, ERRFN, INVOKE)\nthrowing := func() { throw error(\"thrown\") }\nstrings := import(\"strings\")\nreturn strings.Map(func(c) {\n  return %s\n}, \"ab\")\n"},
-	{"deep10", "global (zero, neg, arr, G, OBJ, PANICSTR, PANICERR, PANICRT, PANICCUSTOM, PANICNIL, ERRFN, INVOKE)\nthrowing := func() { throw error(\"thrown\") }\nvar r\nr = func(n) {\n  if n == 0 {\n    return %s\n  }\n  return r(n - 1) + 1\n}\nreturn r(10)\n"},
-	{"deep1000", "global (zero, neg, arr, G, OBJ, PANICSTR, PANICERR, PANICRT, PANICCUSTOM, PANICNIL, ERRFN, INVOKE)\nthrowing := func() { throw error(\"thrown\") }\nvar r\nr = func(n) {\n  if n == 0 {\n    return %s\n  }\n  return r(n - 1) + 1\n}\ntry {\n  return r(1000)\n} catch e {\n  return e.Name\n}\n"},
-	{"deep1021", "global (zero, neg, arr, G, OBJ, PANICSTR, PANICERR, PANICRT, PANICCUSTOM, PANICNIL, ERRFN, INVOKE)\nthrowing := func() { throw error(\"thrown\") }\nvar r\nr = func(n) {\n  if n == 0 {\n    return %s\n  }\n  return r(n - 1) + 1\n}\nreturn r(1020)\n"},
-	{"deep1022", "global (zero, neg, arr, G, OBJ, PANICSTR, PANICERR, PANICRT, PANICCUSTOM, PANICNIL, ERRFN, INVOKE)\nthrowing := func() { throw error(\"thrown\") }\nvar r\nr = func(n) {\n  if n == 0 {\n    return %s\n  }\n  return r(n - 1) + 1\n}\nreturn r(1021)\n"},
-	{"deep1023", "global (zero, neg, arr, G, OBJ, PANICSTR, PANICERR, PANICRT, PANICCUSTOM, PANICNIL, ERRFN, INVOKE)\nthrowing := func() { throw error(\"thrown\") }\nvar r\nr = func(n) {\n  if n == 0 {\n    return %s\n  }\n  return r(n - 1) + 1\n}\ntry {\n  return r(1022)\n} finally {\n  G = 5\n}\n"},
+	{"plain", "global (zero, neg, arr, G, OBJ, PANICSTR, PANICERR, PANICRT, PANICCUSTOM, PANICNIL, ERRFN, INVOKE, ABORTPANIC, ABORTERR)\nthrowing := func() { throw error(\"thrown\") }\nreturn %s\n"},
+	{"try", "global (zero, neg, arr, G, OBJ, PANICSTR, PANICERR, PANICRT, PANICCUSTOM, PANICNIL, ERRFN, INVOKE, ABORTPANIC, ABORTERR)\nthrowing := func() { throw error(\"thrown\") }\ntry {\n  return %s\n} catch e {\n  return \"caught:\" + e.Name\n}\n"},
+	// main has no local variable at all: the handler's saved stack position is the very bottom of the stack
+	{"nolocals-try", "global (zero, neg, arr, G, OBJ, PANICSTR, PANICERR, PANICRT, PANICCUSTOM, PANICNIL, ERRFN, INVOKE, ABORTPANIC, ABORTERR)\ntry {\n  return %s\n} catch {\n  return \"caught\"\n}\n"},
+	{"nolocals-finally", "global (zero, neg, arr, G, OBJ, PANICSTR, PANICERR, PANICRT, PANICCUSTOM, PANICNIL, ERRFN, INVOKE, ABORTPANIC, ABORTERR)\ntry {\n  %s\n} finally {\n  G = 9\n}\n"},
+	{"catch", "global (zero, neg, arr, G, OBJ, PANICSTR, PANICERR, PANICRT, PANICCUSTOM, PANICNIL, ERRFN, INVOKE, ABORTPANIC, ABORTERR)\nthrowing := func() { throw error(\"thrown\") }\ntry {\n  throw \"x\"\n} catch e {\n  return %s\n}\n"},
+	{"finally", "global (zero, neg, arr, G, OBJ, PANICSTR, PANICERR, PANICRT, PANICCUSTOM, PANICNIL, ERRFN, INVOKE, ABORTPANIC, ABORTERR)\nthrowing := func() { throw error(\"thrown\") }\ntry {\n  return 1\n} finally {\n  %s\n}\n"},
+	{"callee", "global (zero, neg, arr, G, OBJ, PANICSTR, PANICERR, PANICRT, PANICCUSTOM, PANICNIL, ERRFN, INVOKE, ABORTPANIC, ABORTERR)\nthrowing := func() { throw error(\"thrown\") }\nf := func() {\n  return %s\n}\ng := func() {\n  try {\n    return f()\n  } finally {\n    G = 4\n  }\n}\nreturn g()\n"},
+	{"looptry", "global (zero, neg, arr, G, OBJ, PANICSTR, PANICERR, PANICRT, PANICCUSTOM, PANICNIL, ERRFN, INVOKE, ABORTPANIC, ABORTERR)\nthrowing := func() { throw error(\"thrown\") }\nn := 0\nfor i := 0; i < 3; i++ {\n  try {\n    %s\n  } catch {\n    n++\n  }\n}\nreturn n\n"},
+	{"invoker", "global (zero, neg, arr, G, OBJ, PANICSTR, PANICERR, PANICRT, PANICCUSTOM, PANICNIL, ERRFN, INVOKE, ABORTPANIC, ABORTERR)\nthrowing := func() { throw error(\"thrown\") }\nreturn INVOKE(func() {\n  return %s\n})\n"},
+	{"stringsmap", "global (zero, neg, arr, G, OBJ, PANICSTR, PANICERR, PANICRT, PANICCUSTOM, PANICNIL, ERRFN, INVOKE, ABORTPANIC, ABORTERR)\nthrowing := func() { throw error(\"thrown\") }\nstrings := import(\"strings\")\nreturn strings.Map(func(c) {\n  return %s\n}, \"ab\")\n"},
+	{"deep10", "global (zero, neg, arr, G, OBJ, PANICSTR, PANICERR, PANICRT, PANICCUSTOM, PANICNIL, ERRFN, INVOKE, ABORTPANIC, ABORTERR)\nthrowing := func() { throw error(\"thrown\") }\nvar r\nr = func(n) {\n  if n == 0 {\n    return %s\n  }\n  return r(n - 1) + 1\n}\nreturn r(10)\n"},
+	{"deep1000", "global (zero, neg, arr, G, OBJ, PANICSTR, PANICERR, PANICRT, PANICCUSTOM, PANICNIL, ERRFN, INVOKE, ABORTPANIC, ABORTERR)\nthrowing := func() { throw error(\"thrown\") }\nvar r\nr = func(n) {\n  if n == 0 {\n    return %s\n  }\n  return r(n - 1) + 1\n}\ntry {\n  return r(1000)\n} catch e {\n  return e.Name\n}\n"},
+	{"deep1021", "global (zero, neg, arr, G, OBJ, PANICSTR, PANICERR, PANICRT, PANICCUSTOM, PANICNIL, ERRFN, INVOKE, ABORTPANIC, ABORTERR)\nthrowing := func() { throw error(\"thrown\") }\nvar r\nr = func(n) {\n  if n == 0 {\n    return %s\n  }\n  return r(n - 1) + 1\n}\nreturn r(1020)\n"},
+	{"deep1022", "global (zero, neg, arr, G, OBJ, PANICSTR, PANICERR, PANICRT, PANICCUSTOM, PANICNIL, ERRFN, INVOKE, ABORTPANIC, ABORTERR)\nthrowing := func() { throw error(\"thrown\") }\nvar r\nr = func(n) {\n  if n == 0 {\n    return %s\n  }\n  return r(n - 1) + 1\n}\nreturn r(1021)\n"},
+	{"deep1023", "global (zero, neg, arr, G, OBJ, PANICSTR, PANICERR, PANICRT, PANICCUSTOM, PANICNIL, ERRFN, INVOKE, ABORTPANIC, ABORTERR)\nthrowing := func() { throw error(\"thrown\") }\nvar r\nr = func(n) {\n  if n == 0 {\n    return %s\n  }\n  return r(n - 1) + 1\n}\ntry {\n  return r(1022)\n} finally {\n  G = 5\n}\n"},
 }
 
 type c06wit struct {
@@ -236,6 +254,11 @@ func (m c06) run(c *core.Ctx, src, fault, context string, mm *ugo.ModuleMap, arg
 		c.Violation("C06|host-panic|"+stackTopRepo(stack)+"|"+core.NormMsg(fmt.Sprint(pan)), "panic escaped VM.Run with recovery enabled: "+trunc(fmt.Sprint(pan), 200), wit("host panic", fmt.Sprint(pan)+"\n"+stack))
 		return true
 	}
+	if strings.HasPrefix(fault, "ABORT") && context != "invoker" && context != "stringsmap" && err == nil {
+		// the callback aborted the VM that runs the script (and then panicked / failed): the run cannot end with a value
+		c.Violation("C06|abort-lost-in-recovery|"+context, "a callback aborted the VM and then failed; Run returned the value "+trunc(canon.Value(val), 80)+" and no error", wit("value after Abort + failure in a callback", canon.Value(val)))
+		return true
+	}
 	switch {
 	case err != nil:
 		c.Count("outcome_error")
@@ -315,7 +338,7 @@ func (m c06) run(c *core.Ctx, src, fault, context string, mm *ugo.ModuleMap, arg
 	return nontrivial
 }
 
-const c06hdr = "global (zero, neg, arr, G, OBJ, PANICSTR, PANICERR, PANICRT, PANICCUSTOM, PANICNIL, ERRFN, INVOKE)\nthrowing := func() { throw error(\"thrown\") }\n"
+const c06hdr = "global (zero, neg, arr, G, OBJ, PANICSTR, PANICERR, PANICRT, PANICCUSTOM, PANICNIL, ERRFN, INVOKE, ABORTPANIC, ABORTERR)\nthrowing := func() { throw error(\"thrown\") }\n"
 
 // delivery: a fault raised inside a script function that has its own try/catch/finally is delivered to that catch and
 // finally in the same way whether the function is called by the script, run on a child VM through an Invoker inside a Go
@@ -445,6 +468,9 @@ func (m c06) Run(c *core.Ctx) {
 	for _, f := range c06faults {
 		if strings.Contains(f, "var r;") {
 			continue // depth-dependent: a child VM starts with an empty stack
+		}
+		if strings.HasPrefix(f, "ABORT") {
+			continue // aborts the VM it runs on: the root in one case, the child in the other - not the same experiment
 		}
 		if f == "PANICNIL()" {
 			// panic(nil) with the module's Go language version (< 1.21): recover() returns nil, no recovery code can tell
